@@ -8,7 +8,7 @@
 (*      | <<"payload", atom>>      the dCBOR of a leaf value               *)
 (*      | <<"uint", n>>            unsigned integer (a known value)        *)
 (*      | <<"map1", Wk, Wv>>       a map with exactly one entry            *)
-(*      | <<"mapn", Seq(<<Wk,Wv>>)>>  a map with 0 or >= 2 entries         *)
+(*      | <<"mapn", {<<Wk,Wv>>}>>  a map with 0 or >= 2 entries, in canonical order *)
 (*      | <<"bytes", D, delta>>    byte string: the 32 bytes of D, with    *)
 (*                                 delta bytes appended (+) / dropped (-)  *)
 (*      | <<"nodearr", Wsubj, {<<D, W>>}, perm>>                           *)
@@ -29,7 +29,7 @@ EXTENDS EnvelopeOps
 
 RECURSIVE Untagged(_)
 Untagged(e) ==
-  CASE e[1] = "leaf"   -> <<"tag", TagLeaf, <<"payload", e[2]>>>>
+  CASE e[1] = "leaf"   -> <<"tag", TagLeaf, IF e[2][1] = "cborof" THEN e[2][2] ELSE <<"payload", e[2]>>>>
     [] e[1] = "kv"     -> <<"uint", e[2]>>
     [] e[1] = "assn"   -> <<"map1", Untagged(e[2]), Untagged(e[3])>>
     [] e[1] = "node"   -> <<"nodearr", Untagged(e[2]), {<<Dg(a), Untagged(a)>> : a \in e[3]}, <<"id">>>>
@@ -40,4 +40,117 @@ Untagged(e) ==
     [] e[1] = "comp"   -> <<"tag", TagCompressed,
                             <<"compmsg", e[2], <<"tag", TagEnvelope, Untagged(e[3])>>, e[4], 0>>>>
 Tagged(e) == <<"tag", TagEnvelope, Untagged(e)>>
+
+(***************************************************************************)
+(* The decoder, as the draft specifies it (section 3, and 7.2 for the      *)
+(* order of assertions): total on wire terms, Err outside the grammar.     *)
+(***************************************************************************)
+NoDigest == <<"nodigest">>
+RECURSIVE HasQuirk(_)
+HasQuirk(w) ==
+  CASE w[1] = "quirk" -> TRUE
+    [] w[1] = "tag"   -> HasQuirk(w[3])
+    [] w[1] = "map1"  -> HasQuirk(w[2]) \/ HasQuirk(w[3])
+    [] w[1] = "nodearr" -> HasQuirk(w[2]) \/ \E x \in w[3] : HasQuirk(x[2])
+    [] OTHER -> FALSE
+RECURSIVE DecodeU(_), DecodeItems(_)
+\* decode every <<key, item>> of a node array; Err if one fails
+DecodeItems(S) ==
+  IF S = {} THEN Ok({})
+  ELSE LET x == CHOOSE x \in S : TRUE
+           r == DecodeU(x[2])
+           rest == DecodeItems(S \ {x}) IN
+       IF ~IsOk(r) THEN r ELSE IF ~IsOk(rest) THEN rest ELSE Ok({Val(r)} \cup Val(rest))
+DecodeU(w) ==
+  CASE w[1] = "tag" ->
+         (CASE w[2] \in {TagLeaf, TagLeafLegacy} ->
+                 (CASE w[3][1] = "payload" -> Ok(Leaf(w[3][2]))
+                    [] HasQuirk(w[3]) -> Err("not deterministic CBOR")
+                    [] OTHER -> Ok(Leaf(<<"cborof", w[3]>>)))    \* any well-formed CBOR item is a leaf value
+            [] w[2] = TagEnvelope ->
+                 LET r == DecodeU(w[3]) IN IF IsOk(r) THEN Ok(Wrap(Val(r))) ELSE r
+            [] w[2] = TagEncrypted ->
+                 IF w[3][1] # "encmsg" THEN Err("invalid encrypted message")
+                 ELSE IF w[3][2] = NoDigest THEN Err("MissingDigest")
+                 ELSE IF w[3][7] # 0 THEN Err("extra elements")
+                 ELSE LET p == DecodeU(w[3][5][3]) IN
+                      IF IsOk(p) THEN Ok(Enc(w[3][2], w[3][3], w[3][4], Val(p), w[3][6])) ELSE p
+            [] w[2] = TagCompressed ->
+                 IF w[3][1] # "compmsg" THEN Err("invalid compressed")
+                 ELSE IF w[3][2] = NoDigest THEN Err("MissingDigest")
+                 ELSE IF w[3][5] # 0 THEN Err("extra elements")
+                 ELSE LET p == DecodeU(w[3][3][3]) IN
+                      IF IsOk(p) THEN Ok(Comp(w[3][2], Val(p), w[3][4])) ELSE p
+            [] OTHER -> Err("unknown tag"))
+    [] w[1] = "uint"  -> Ok(KV(w[2]))
+    [] w[1] = "bytes" -> IF w[3] = 0 THEN Ok(Elided(w[2])) ELSE Err("digest length")
+    [] w[1] = "map1"  -> LET p == DecodeU(w[2])  o == DecodeU(w[3]) IN
+                         IF ~IsOk(p) THEN p ELSE IF ~IsOk(o) THEN o ELSE Ok(Assn(Val(p), Val(o)))
+    [] w[1] = "mapn"  -> Err("assertion map must have exactly one entry")
+    [] w[1] = "nodearr" ->
+         LET s == DecodeU(w[2])  items == DecodeItems(w[3]) IN
+         IF ~IsOk(s) THEN s
+         ELSE IF ~IsOk(items) THEN items
+         ELSE IF w[3] = {} THEN Err("node must have at least two elements")
+         ELSE IF \E a \in Val(items) : ~AssertionLike(a) THEN Err("InvalidFormat")
+         ELSE IF w[4] # <<"id">> THEN Err("assertions not in strictly ascending digest order")
+         ELSE IF Cardinality({Dg(a) : a \in Val(items)}) # Cardinality(w[3]) THEN Err("repeated digest")
+         ELSE Ok(Node(Val(s), Val(items)))
+    [] w[1] = "arr"   -> Err("node must have at least two elements")   \* only generated with < 2 items
+    [] OTHER -> Err("invalid envelope")                                \* quirk, other CBOR types
+DecodeTagged(w) ==
+  IF w[1] = "tag" /\ w[2] = TagEnvelope THEN DecodeU(w[3]) ELSE Err("not an envelope")
+
+(* the tolerated alias: #6.24 read as #6.201 *)
+RECURSIVE Alias24(_)
+Alias24(w) ==
+  CASE w[1] = "tag" -> IF w[2] \in {TagLeaf, TagLeafLegacy} THEN <<"tag", TagLeaf, w[3]>>   \* leaf content is data
+                       ELSE <<"tag", w[2], Alias24(w[3])>>
+    [] w[1] = "map1" -> <<"map1", Alias24(w[2]), Alias24(w[3])>>
+    [] w[1] = "nodearr" -> <<"nodearr", Alias24(w[2]), {<<x[1], Alias24(x[2])>> : x \in w[3]}, w[4]>>
+    [] OTHER -> w
+
+(* ---- structural mutations of a wire term (one at one position) --------------*)
+Junk == { <<"other", "float">>, <<"other", "text">>, <<"other", "negint">>, <<"other", "bool">> }
+Quirks == {"nonminimal", "indefinite"}
+\* mutations that replace the item itself
+RECURSIVE Mut(_)
+MutHere(w) ==
+  Junk \cup {<<"quirk", q, w>> : q \in Quirks}
+  \cup (CASE w[1] = "tag" ->
+             {<<"tag", 299, w[3]>>}
+             \cup (IF w[2] = TagLeaf THEN {<<"tag", TagLeafLegacy, w[3]>>} ELSE {})
+             \cup (IF w[2] = TagEnvelope THEN {<<"tag", TagLeaf, w[3]>>} ELSE {})
+             \cup (IF w[2] = TagEncrypted /\ w[3][1] = "encmsg"
+                   THEN {<<"tag", TagEncrypted, <<"encmsg", w[3][2], w[3][3], w[3][4], w[3][5], w[3][6], 1>>>>,
+                         <<"tag", TagEncrypted, <<"encmsg", NoDigest, w[3][3], w[3][4], w[3][5], w[3][6], 0>>>>}
+                   ELSE {})
+             \cup (IF w[2] = TagCompressed /\ w[3][1] = "compmsg"
+                   THEN {<<"tag", TagCompressed, <<"compmsg", w[3][2], w[3][3], w[3][4], 1>>>>,
+                         <<"tag", TagCompressed, <<"compmsg", NoDigest, w[3][3], w[3][4], 0>>>>}
+                   ELSE {})
+        [] w[1] = "bytes" -> {<<"bytes", w[2], 1>>, <<"bytes", w[2], 2>>}   \* 1: one byte appended, 2: one byte dropped
+        [] w[1] = "map1"  -> {<<"mapn", {}>>, <<"mapn", {<<w[2], w[3]>>, <<<<"uint", 99>>, w[3]>>}>>}   \* 0 / 2 entries, canonical order
+        [] w[1] = "nodearr" ->
+             LET n == Cardinality(w[3]) IN
+             {<<"arr", <<w[2]>>>>, <<"arr", << >> >>}
+             \cup {<<"nodearr", w[2], w[3], <<"dup", i>>>> : i \in 1..n}
+             \cup {<<"nodearr", w[2], w[3], <<"swap", i, i + 1>>>> : i \in 1..(n - 1)}
+             \cup (IF n >= 3 THEN {<<"nodearr", w[2], w[3], <<"rev">>>>} ELSE {})
+             \* a non-assertion in an assertion slot (keyed by the digest of what it is)
+             \cup {<<"nodearr", w[2], w[3] \cup {<<H(<<"cbor", TKV(7)>>, {}), <<"uint", 7>>>>}, <<"id">>>>}
+        [] OTHER -> {})
+\* mutations at any position
+Mut(w) ==
+  MutHere(w) \cup
+  (CASE w[1] = "tag" /\ w[3][1] \notin {"payload", "encmsg", "compmsg"} -> {<<"tag", w[2], m>> : m \in Mut(w[3])}
+     [] w[1] = "map1" -> {<<"map1", m, w[3]>> : m \in Mut(w[2])} \cup {<<"map1", w[2], m>> : m \in Mut(w[3])}
+     [] w[1] = "nodearr" ->
+          {<<"nodearr", m, w[3], w[4]>> : m \in Mut(w[2])}
+          \* an item mutated in place keeps its position; mutants that stay valid but change the
+          \* item's digest are left out, since its position would then no longer be known to be in order
+          \cup UNION {{<<"nodearr", w[2], (w[3] \ {x}) \cup {<<x[1], m>>}, w[4]>> :
+                         m \in {m2 \in Mut(x[2]) : LET r == DecodeU(m2) IN ~IsOk(r) \/ Dg(Val(r)) = x[1]}} : x \in w[3]}
+     [] OTHER -> {})
+MutTagged(w) == {<<"tag", TagEnvelope, m>> : m \in Mut(w[3])} \cup {<<"tag", 299, w[3]>>, w[3]}
 =============================================================================
